@@ -60,6 +60,7 @@ fn directed_texts() -> Vec<String> {
     v.push("functie pas(f, x) { f(x) } functie dubbel(y) { y * 2 }; [pas(dubbel, 4), pas(functie(z) { z - 1 }, 4), pas(dubbel, pas(dubbel, 1))]".into());
     v.push("functie f(a, b, c) { stel l1 = a; stel l2 = b; [l1, l2, c] }; stel eerste = f(1, 2, 3); [eerste, [f(4, 5, 6), 7], f(eerste[0], 8, 9), f(lengte(f(0, 0, 0)), f(1, 1, 1), 2)]".into());
     v.push("functie fib(n) { als n < 2 { antwoord n } fib(n - 1) + fib(n - 2) }; [fib(0), fib(1), fib(10), 100 - fib(12), fib(7) * fib(8)]".into());
+    v.push("functie niets(a, b) { } functie doe(f, x) { f(x, x); 3 }; [doe(niets, 1), niets(1, 2), functie(a, b, c) { }(1, 2, 3), lengte([functie(q) { }(9)])]".into());
     v.push("functie tel(n) { stel lokaal = n * 10; als n > 0 { tel(n - 1) }; lokaal }; [tel(3), tel(0)]".into());
     // 255 arguments
     let params: Vec<String> = (0..255).map(|i| format!("p{i}")).collect();
@@ -160,6 +161,19 @@ pub fn run_check(ctx: &Ctx) -> Report {
             let (s, e) = src_of(depth);
             check_directed_value(&mut rep, &s, e, 30_000_000);
         }
+    }
+    // argument counts around the 8-bit operand of the call instruction: the exact value, or a (syntax) error - never another value
+    for n in [1usize, 2, 127, 128, 254, 255, 256, 257, 258, 300, 511, 512, 513] {
+        let params: Vec<String> = (0..n).map(|i| format!("p{i}")).collect();
+        let args: Vec<String> = (0..n).map(|i| format!("{}", i + 1)).collect();
+        let src = format!("functie veel({}) {{ p0 * 1000 + p{} }} [7, veel({})][1] + 0", params.join(", "), n - 1, args.join(", "));
+        check_directed_value(&mut rep, &src, 1000 + n as i64, 3_000_000);
+        // a callee that ignores its parameters, called while operands are pending: slots that a miscompiled call leaves behind show up in the array
+        let src = format!("functie vast({}) {{ 5 }} stel r = [7, vast({}), 9]; r[0] * 100 + r[1] * 10 + lengte(r)", params.join(", "), args.join(", "));
+        check_directed_value(&mut rep, &src, 753, 3_000_000);
+        // the same number of arguments to a builtin that takes any number
+        let src = format!("print({}); 5", vec!["\"\""; n].join(", "));
+        check_directed_value(&mut rep, &src, 5, 3_000_000);
     }
     for k in [10, 200, 1000, 5000, 16_000, 21_000, 22_000, 33_000, 70_000] {
         let (s, e) = deep_recursion(k);
